@@ -174,6 +174,8 @@ def string_vs_argv_cases(draw):
 PARTS = {"parse": check_parse}
 
 
+HYP = {"parse": (lambda ctx: gen_args.case_st(), check_parse)}
+
 def run(ctx):
     quick = ctx.tier == "quick"
-    ctx.hyp(gen_args.case_st(), lambda c: check_parse(ctx, c), 3000 if quick else 60000, salt=1)
+    ctx.hyp_sharded("parse", 12000 if quick else 120000, salt=1)
